@@ -287,7 +287,7 @@ def run(ctx):
             _parse(ctx, refcrc.frame(body), 1)
     ctx.hit("numbers_enumerated", 4096 // ctx.nworkers)
     # (b) structure-aware mutants, (c) wrapped in frames for the static parser
-    per = 6 if ctx.quick else 240
+    per = 12 if ctx.quick else 240
     for k, identity in enumerate(ids):
         if not ctx.mine(k):
             continue
@@ -350,7 +350,7 @@ def run(ctx):
         _plain_stream(ctx, run_ + good, it % 2, 1, "bytesio", "long-error-run")
         ctx.hit("long_error_runs")
     # (d) hostile finite streams with faults
-    for i in range(ctx.n(2400, 120000)):
+    for i in range(ctx.n(5000, 120000)):
         data, _ = c01.make_stream(rng, small=rng.random() < 0.5)
         if rng.random() < 0.25:  # CRC-valid frames with nonsensical content
             extra = []
